@@ -285,10 +285,26 @@ def r5_cleanup_order(chk: Check):
                     "judged already repaired, then loses its link later in the same walk and ends up reachable only under its former identifier", loc)
 
 
+
+def r6_marker_names_follow(chk: Check):
+    """`resubmitting finds the existing result`: the markers of a job are named after the last component of its *task* identifier; when the
+    deprecated class is the task itself, the repaired folder holds <old>.done while the resubmitted job looks for <new>.done (finding kept in
+    known_findings.json)"""
+    tree = chk.tree
+    ji = tree.func("scheduler.base", "Job.__init__")
+    named = any(isinstance(x, ast.Assign) and src(x.targets[0]) == "self.name" and "type.identifier" in src(x.value) for x in body_walk(ji.node))
+    f = tree.func("tools.jobs", "fix_deprecated")
+    renames = [c for c in fn_calls(f.node) if tail(c) in ("rename", "symlink_to", "replace") and any(k in src(c) for k in (".done", "name}.", "scriptname"))]
+    chk.require(not named or bool(renames), chk.fkey(f, "marker files keep the former task name"),
+                "job files are named after the task (`Job.name` = last component of the type identifier) and fix_deprecated links / moves the folder only: after deprecating a *task* class "
+                "the resubmitted job finds the folder but not its success marker, and runs again", chk.loc(f.module, f.node))
+
+
 RULES = [
     ("R1", "identifier swap: deprecate() saves the former identifier and stores its single parent's current identifier as a plain attribute; hash and job path read it; more than one base raises", r1_identifier_swap),
     ("R2", "the repair never deletes job data: unlink only under is_symlink() of the same path, no rmtree/shutil, rename only under cleanup with a free target, params.json replaced through a temporary file", r2_never_deletes),
     ("R3", "link / move decision table over all 256 assignments of its atoms: link (or rewrite + move with cleanup) iff identifier differs, --fix and the new location is free; dangling link removed first", r3_link_move_table),
     ("R4", "the recomputed identifier is the one a resubmission computes: init tasks, pre-tasks, task and meta are restored by the loader (= C12.R1, C12.R3)", r4_recomputed_identifier),
     ("R5", "with --cleanup, all former links are removed in a completed pass before any new location is tested", r5_cleanup_order),
+    ("R6", "marker files of a repaired job (finding kept in known_findings.json): named after the task, not renamed by the repair", r6_marker_names_follow),
 ]
